@@ -33,6 +33,34 @@ def copy_stmt(s):
     n = copy.copy(s)
     return n
 
+
+def unshare(tree):
+    """Rewrites that duplicate a statement reuse its sub-expressions; a node that hangs in the tree twice is replaced by a copy,
+    so that later in-place edits (renaming one binding of a local) touch one place only."""
+    seen = set()
+    skip = (ast.expr_context, ast.operator, ast.cmpop, ast.boolop, ast.unaryop)
+
+    def visit(n):
+        for f, v in ast.iter_fields(n):
+            if isinstance(v, ast.AST):
+                if isinstance(v, skip):
+                    continue
+                if id(v) in seen:
+                    v = copy.deepcopy(v)
+                    setattr(n, f, v)
+                seen.add(id(v))
+                visit(v)
+            elif isinstance(v, list):
+                for i, x in enumerate(v):
+                    if isinstance(x, ast.AST) and not isinstance(x, skip):
+                        if id(x) in seen:
+                            x = copy.deepcopy(x)
+                            v[i] = x
+                        seen.add(id(x))
+                        visit(x)
+    visit(tree)
+    return tree
+
 FLIP = {ast.Eq: ast.Eq, ast.NotEq: ast.NotEq, ast.Lt: ast.Gt, ast.Gt: ast.Lt, ast.LtE: ast.GtE, ast.GtE: ast.LtE}
 TERMINATORS = (ast.Return, ast.Raise, ast.Continue, ast.Break)
 
@@ -289,12 +317,113 @@ class Canon(object):
         self.hit('N24')
         self.ex.visit(fn)
 
+    def split_webs(self, fn):
+        """N34  a local that is bound several times to plain access paths (`stream = spawn._before` in one branch, `stream =
+        spawn._buffer` in the other), where every read sees exactly one of the bindings, becomes one local per binding -- each of
+        them is then a single-assignment alias the rules can look through.  Decided on the block structure: a read is covered
+        by the nearest preceding binding in its own or an enclosing block; loops / try blocks that rebind the name, reads after
+        a conditional rebinding, closures, augmented assignments, del, for/with/except targets make the name ineligible."""
+        if any(isinstance(n, (ast.Lambda, ast.ClassDef, ast.Global, ast.Nonlocal, ast.ListComp, ast.SetComp, ast.DictComp, ast.GeneratorExp)) for n in ast.walk(fn)):
+            return
+        if any(isinstance(n, (ast.FunctionDef, ast.AsyncFunctionDef)) for n in ast.walk(fn) if n is not fn):
+            return
+        params = set(a.arg for a in fn.args.args + fn.args.kwonlyargs + fn.args.posonlyargs)
+        if fn.args.vararg:
+            params.add(fn.args.vararg.arg)
+        if fn.args.kwarg:
+            params.add(fn.args.kwarg.arg)
+        defs, bad = {}, set()
+        for n in ast.walk(fn):
+            if isinstance(n, ast.Assign) and len(n.targets) == 1 and isinstance(n.targets[0], ast.Name):
+                if _chain(n.value) and not (isinstance(n.value, ast.Name) and n.value.id == n.targets[0].id):
+                    defs.setdefault(n.targets[0].id, []).append(n)
+                else:
+                    bad.add(n.targets[0].id)
+        store_count = {}
+        for n in ast.walk(fn):
+            if isinstance(n, ast.Name) and isinstance(n.ctx, (ast.Store, ast.Del)):
+                store_count[n.id] = store_count.get(n.id, 0) + 1
+            elif isinstance(n, ast.ExceptHandler) and n.name:
+                bad.add(n.name)
+        cands = [x for x, ds in defs.items() if len(ds) >= 2 and x not in bad and x not in params and store_count.get(x) == len(ds)]
+        for x in cands:
+            use = {}          # id(Name load) -> def statement
+            ok = [True]
+            AMB = object()
+
+            def loads(e, cur):
+                for n in ast.walk(e):
+                    if isinstance(n, ast.Name) and n.id == x and isinstance(n.ctx, ast.Load):
+                        if cur is None or cur is AMB:
+                            ok[0] = False
+                        else:
+                            use[id(n)] = (n, cur)
+
+            def has_def(stmts):
+                return any(isinstance(n, ast.Name) and n.id == x and isinstance(n.ctx, ast.Store) for st in stmts for n in ast.walk(st))
+
+            def walk(stmts, cur):
+                for st in stmts:
+                    if isinstance(st, ast.Assign) and any(st is d for d in defs[x]):
+                        loads(st.value, cur)
+                        cur = st
+                    elif isinstance(st, ast.If):
+                        loads(st.test, cur)
+                        b, e = walk(st.body, cur), walk(st.orelse, cur)
+                        if terminates(st.body) and not terminates(st.orelse):
+                            cur = e
+                        elif terminates(st.orelse) and st.orelse and not terminates(st.body):
+                            cur = b
+                        else:
+                            cur = b if b is e else AMB
+                    elif isinstance(st, (ast.While, ast.For, ast.AsyncFor)):
+                        inner = has_def(st.body) or has_def(st.orelse)
+                        loads(st.test if isinstance(st, ast.While) else st.iter, AMB if inner else cur)
+                        walk(st.body, AMB if inner else cur)
+                        walk(st.orelse, AMB if inner else cur)
+                        cur = AMB if inner else cur
+                    elif isinstance(st, ast.Try):
+                        inner = has_def([st])
+                        b = walk(st.body, cur)
+                        for h in st.handlers:
+                            walk(h.body, AMB if inner else cur)
+                        walk(st.orelse, b)
+                        walk(st.finalbody, AMB if inner else cur)
+                        cur = AMB if inner else cur
+                    elif isinstance(st, (ast.With, ast.AsyncWith)):
+                        for it in st.items:
+                            loads(it.context_expr, cur)
+                        cur = walk(st.body, cur)
+                    else:
+                        loads(st, cur)
+                return cur
+            walk(fn.body, None)
+            n_loads = sum(1 for n in ast.walk(fn) if isinstance(n, ast.Name) and n.id == x and isinstance(n.ctx, ast.Load))
+            if not ok[0] or len(use) != n_loads:
+                continue
+            names = set(n.id for n in ast.walk(fn) if isinstance(n, ast.Name)) | params
+            order = sorted(defs[x], key=lambda d: (d.lineno, d.col_offset))
+            for k, d in enumerate(order):
+                if k == 0:
+                    continue
+                nm = '%s__w%d' % (x, k + 1)
+                while nm in names:
+                    nm += '_'
+                d.targets[0].id = nm
+                for n, dd in use.values():
+                    if dd is d:
+                        n.id = nm
+            self.hit('N34')
+
     def module(self, tree):
         tree = self.ex.visit(tree)
+        unshare(tree)
         for fn in ast.walk(tree):
             if isinstance(fn, (ast.FunctionDef, ast.AsyncFunctionDef)):
+                self.split_webs(fn)
                 self.propagate(fn)
         tree.body = self.block(tree.body)
+        unshare(tree)
         ast.fix_missing_locations(tree)
         return tree
 
@@ -315,7 +444,7 @@ class Canon(object):
                 if len(idx) == 1 and all(_pure(a_) for a_ in k.args[:idx[0]]):
                     ie = k.args[idx[0]]
                     ca = ast.copy_location(ast.Expr(value=ast.Call(func=k.func, args=k.args[:idx[0]] + [ie.body] + k.args[idx[0] + 1:], keywords=[])), s)
-                    cb = ast.copy_location(ast.Expr(value=ast.Call(func=k.func, args=k.args[:idx[0]] + [ie.orelse] + k.args[idx[0] + 1:], keywords=[])), s)
+                    cb = ast.copy_location(ast.Expr(value=ast.Call(func=copy.deepcopy(k.func), args=[copy.deepcopy(a_) for a_ in k.args[:idx[0]]] + [ie.orelse] + [copy.deepcopy(a_) for a_ in k.args[idx[0] + 1:]], keywords=[])), s)
                     out.extend(self.expand([ast.copy_location(ast.If(test=ie.test, body=[ca], orelse=[cb]), s)]))
                     self.hit('N17')
                     continue
@@ -393,6 +522,26 @@ class Canon(object):
                 out.extend(self.expand(unrolled))
                 self.hit('N31')
                 continue
+            # N36 x = min(x, E) / x = min(E, x)  ->  if E < x: x = E      (max: if x < E: x = E);  E call-free apart from len()
+            if isinstance(s, ast.Assign) and len(s.targets) == 1 and isinstance(s.targets[0], ast.Name) and isinstance(s.value, ast.Call) \
+                    and isinstance(s.value.func, ast.Name) and s.value.func.id in ('min', 'max') and len(s.value.args) == 2 and not s.value.keywords:
+                x = s.targets[0].id
+                a0, a1 = s.value.args
+                oth = a1 if (isinstance(a0, ast.Name) and a0.id == x) else (a0 if (isinstance(a1, ast.Name) and a1.id == x) else None)
+
+                def _calm(e):
+                    return all(not isinstance(n, (ast.Call, ast.Await, ast.Yield, ast.NamedExpr)) or
+                               (isinstance(n, ast.Call) and isinstance(n.func, ast.Name) and n.func.id == 'len') for n in ast.walk(e))
+                if oth is not None and _calm(oth) and not any(isinstance(n, ast.Name) and n.id == x for n in ast.walk(oth)):
+                    xl = ast.copy_location(ast.Name(id=x, ctx=ast.Load()), s)
+                    if s.value.func.id == 'min':
+                        test = ast.Compare(left=copy.deepcopy(oth), ops=[ast.Lt()], comparators=[xl])
+                    else:
+                        test = ast.Compare(left=xl, ops=[ast.Lt()], comparators=[copy.deepcopy(oth)])
+                    asg = ast.copy_location(ast.Assign(targets=[ast.copy_location(ast.Name(id=x, ctx=ast.Store()), s)], value=copy.deepcopy(oth)), s)
+                    out.append(self.ex.visit(ast.copy_location(ast.If(test=ast.copy_location(test, s), body=[asg], orelse=[]), s)))
+                    self.hit('N36')
+                    continue
             # N12 if A or B: <single jump>  ->  if A: <jump> ; if B: <jump>
             if isinstance(s, ast.If) and not s.orelse and isinstance(s.test, ast.BoolOp) and isinstance(s.test.op, ast.Or) and _single_jump(s):
                 for v in s.test.values:
@@ -671,12 +820,170 @@ def negative(t):
 def _size(stmts):
     return sum(1 for st in stmts for _ in ast.walk(st))
 
+# Attribute names the package stores into at the pinned snapshot.  A field that is NOT one of these was introduced by a later edit
+# (the rules know the package's own fields by name, they cannot know a new one): N35 looks through it when it only caches a value
+# derived from other constructor-time fields.
+KNOWN_FIELDS = frozenset('''
+PROMPT PROMPT_SET_CSH PROMPT_SET_SH PROMPT_SET_ZSH SSH_OPTS STDERR_FILENO STDIN_FILENO STDOUT_FILENO UNIQUE_PROMPT
+__cause__ __irix_hack _before _buf _buffer _decoder _encoder _read_queue _read_reached_eof _read_thread _searches
+_strings action after allowed_string_types args async_pw_transport before buffer_type child child_fd closed codec_errors
+cols command continuation_prompt crlf cur_c cur_r cur_saved_c cur_saved_r current_state cwd daemon debug_command_string
+decoder default_transition delayafterclose delayafterread delayafterterminate delaybeforesend delimiter dwFlags echo
+encoding encoding_errors end env eof_index exitstatus expecter flag_eof force_password fut ignore_sighup ignorecase
+initial_state input_symbol linesep logfile logfile_read logfile_send longest_string lookback match match_index maxread
+memory name next_state options own_fd pid proc prompt ptyproc rows scroll_row_end scroll_row_start searcher
+searchwindowsize signalstatus socket softspace spawn start state state_transitions state_transitions_any status stderr
+stdin stdout str_last_chars string_type terminated timeout timeout_index transport use_poll value w write_to_stdout
+'''.split())
+
+
+def expand_derived_fields(trees, skip=()):
+    """N35  `self.maintain = self.searchwindowsize or self.lookback` in __init__ (a NEW field, bound once, at the top level of the
+    constructor, from a call-free expression over constants and fields that are themselves only ever bound in constructors of
+    the same class family and never through another object) is read as that expression in the other methods of the class."""
+    classes = []
+    for m, t in trees.items():
+        if m in skip:
+            continue
+        for st in t.body:
+            if isinstance(st, ast.ClassDef):
+                classes.append((m, st))
+    by_name = {}
+    for m, c in classes:
+        by_name.setdefault(c.name, []).append(c)
+
+    def family(c):
+        """names of the class, its (package) ancestors and descendants"""
+        fam = {c.name}
+        changed = True
+        while changed:
+            changed = False
+            for m, k in classes:
+                bases = set(b.id if isinstance(b, ast.Name) else getattr(b, 'attr', None) for b in k.bases)
+                if k.name not in fam and bases & fam:
+                    fam.add(k.name)
+                    changed = True
+        # ancestors
+        todo = [c]
+        while todo:
+            k = todo.pop()
+            for b in k.bases:
+                bn = b.id if isinstance(b, ast.Name) else getattr(b, 'attr', None)
+                if bn and bn not in fam:
+                    fam.add(bn)
+                    todo.extend(by_name.get(bn, []))
+        return fam
+    # every attribute store of the package: (attr, base is `self`, class name or None, function name)
+    stores = []
+    for m, t in trees.items():
+        if m in skip:
+            continue
+        for node, cls, fn in _walk_ctx(t):
+            if isinstance(node, ast.Attribute) and isinstance(node.ctx, (ast.Store, ast.Del)):
+                stores.append((node.attr, isinstance(node.value, ast.Name) and node.value.id == 'self', cls, fn))
+            elif isinstance(node, ast.Call) and isinstance(node.func, ast.Name) and node.func.id in ('setattr', 'delattr'):
+                stores.append((None, False, cls, fn))
+    if any(a is None for a, _, _, _ in stores):
+        return 0
+    hits = 0
+    for m, c in classes:
+        init = [f for f in c.body if isinstance(f, ast.FunctionDef) and f.name == '__init__']
+        if not init:
+            continue
+        init = init[0]
+        fam = family(c)
+
+        def stable(b):
+            for a, is_self, cls, fn in stores:
+                if a != b:
+                    continue
+                if not is_self:
+                    return False
+                if cls in fam and fn != '__init__':
+                    return False
+            return True
+
+        def pure(e):
+            if isinstance(e, ast.Constant):
+                return True
+            if isinstance(e, ast.Attribute):
+                return isinstance(e.value, ast.Name) and e.value.id == 'self' and stable(e.attr)
+            if isinstance(e, ast.BoolOp):
+                return all(pure(x) for x in e.values)
+            if isinstance(e, ast.BinOp):
+                return pure(e.left) and pure(e.right)
+            if isinstance(e, ast.UnaryOp):
+                return pure(e.operand)
+            if isinstance(e, ast.Compare):
+                return pure(e.left) and all(pure(x) for x in e.comparators)
+            if isinstance(e, ast.IfExp):
+                return pure(e.test) and pure(e.body) and pure(e.orelse)
+            return False
+        derived = {}
+        for i, st in enumerate(init.body):
+            if isinstance(st, ast.Assign) and len(st.targets) == 1 and isinstance(st.targets[0], ast.Attribute) \
+                    and isinstance(st.targets[0].value, ast.Name) and st.targets[0].value.id == 'self':
+                a = st.targets[0].attr
+                if a in KNOWN_FIELDS or sum(1 for x in stores if x[0] == a) != 1 or not pure(st.value):
+                    continue
+                if not any(isinstance(x, ast.Attribute) for x in ast.walk(st.value)):
+                    continue          # a plain constant default is a configuration knob, not a derived value
+                # the fields it reads are all bound before it, at the top level or above
+                read = set(x.attr for x in ast.walk(st.value) if isinstance(x, ast.Attribute))
+                later = set()
+                for st2 in init.body[i + 1:]:
+                    for x in ast.walk(st2):
+                        if isinstance(x, ast.Attribute) and isinstance(x.ctx, (ast.Store, ast.Del)):
+                            later.add(x.attr)
+                        elif isinstance(x, ast.Call):
+                            later.add('*call*') if isinstance(x.func, ast.Attribute) and isinstance(x.func.value, ast.Name) and x.func.value.id == 'self' else None
+                if read & later or '*call*' in later:
+                    continue
+                derived[a] = st.value
+        if not derived:
+            continue
+
+        class T(ast.NodeTransformer):
+            def visit_Attribute(self_, n):
+                if isinstance(n.ctx, ast.Load) and isinstance(n.value, ast.Name) and n.value.id == 'self' and n.attr in derived:
+                    return copy.deepcopy(derived[n.attr])
+                return self_.generic_visit(n)
+        for f in c.body:
+            if isinstance(f, (ast.FunctionDef, ast.AsyncFunctionDef)) and f.name != '__init__':
+                before = ast.dump(f)
+                T().visit(f)
+                if ast.dump(f) != before:
+                    hits += 1
+    return hits
+
+
+def _walk_ctx(tree):
+    """(node, enclosing class name, enclosing function name) for every node of a module"""
+    def go(n, cls, fn):
+        for ch in ast.iter_child_nodes(n):
+            if isinstance(ch, ast.ClassDef):
+                yield ch, cls, fn
+                for x in go(ch, ch.name, None):
+                    yield x
+            elif isinstance(ch, (ast.FunctionDef, ast.AsyncFunctionDef)):
+                yield ch, cls, fn
+                for x in go(ch, cls, fn or ch.name):
+                    yield x
+            else:
+                yield ch, cls, fn
+                for x in go(ch, cls, fn):
+                    yield x
+    return go(tree, None, None)
+
 
 def canonicalise(trees, skip=()):
     """trees: dict name -> Module ast (modified in place); returns rule hit counts"""
     from . import inline
     sigs = signatures([t for n, t in trees.items() if n not in skip])
     total = {}
+    n35 = expand_derived_fields(trees, skip)
+    if n35:
+        total['N35'] = n35
 
     def run():
         for n, t in list(trees.items()):
